@@ -639,3 +639,34 @@ Proof. intro; reflexivity. Qed.
 
 Lemma demo_calm t : calm_oracle (demo_oracle t).
 Proof. split; reflexivity. Qed.
+
+(* ---------- result keys read from entry files are untrusted (Model/ReqSMExt.v) ---------- *)
+From Sccache Require Import Model.ReqSMExt.
+
+(* an entry file naming a malformed result key leaves the cache "holding only compiler-produced entries" *)
+Lemma forge_malformed_Inv w pk k m st :
+  wf_result_key k = false -> Inv w st -> Inv w (forge_pp pk k m st).
+Proof.
+  intros Hk HI t. destruct (HI t) as [Ipp Ires]. unfold forge_pp, read_entry_file. rewrite Hk.
+  split; [|exact Ires]. simpl. intros pk' k' m' Hpk Hin Hm.
+  apply kv_set_In in Hin. destruct Hin as [[_ Hv]|Hin]; [discriminate | eapply Ipp; eauto].
+Qed.
+
+(* ... and is never looked up: the lookup through it is "no entry" *)
+Lemma forge_malformed_not_read f pk k m st :
+  wf_result_key k = false -> pp_read f pk (forge_pp pk k m st) = None.
+Proof.
+  intro Hk. unfold pp_read, forge_pp, read_entry_file. rewrite Hk. simpl.
+  destruct (f_ppget f); try reflexivity. rewrite kv_get_set_same. reflexivity.
+Qed.
+
+Theorem malformed_result_key_transparent w st t f cl cc pk k m :
+  consistent w -> Inv w st -> sane (w t) -> f_outdir_ok f = true -> calm f (w t) ->
+  wf_result_key k = false ->
+  Inv w (forge_pp pk k m st)
+  /\ transparent (w t) (snd (fst (request f cl cc (w t) (forge_pp pk k m st)))).
+Proof.
+  intros HC HI HS HO HCalm Hk.
+  pose proof (forge_malformed_Inv w pk k m st Hk HI) as HI'.
+  split; [exact HI' | apply request_transparent; assumption].
+Qed.
